@@ -24,31 +24,31 @@ theorem keptOf_news {c : Cfg} (F : CfgFacts c) (E : Env) (obj : Node) (ct : CT) 
   simp [this]
 
 /-- what a signing digests depends on the kept parts only -/
-theorem refs_of_kept {E : Env} {c : Cfg} {pkg : Pkg} {s : Vsix.Signed} (hs : Vsix.sign E c pkg = .ok s) :
+theorem refs_of_kept {fx : Bool} {E : Env} {c : Cfg} {pkg : Pkg} {s : Vsix.Signed} (hs : Vsix.sign fx E c pkg = .ok s) :
     s.kept = keptOf pkg ∧
     s.refs.map (fun r => (r.name, r.stream)) =
       sortMap (addDigests ((keptOf pkg).foldl (fun d p => mset d p.name p.data) []) (fixedNews E c)) := by
   obtain ⟨m, hm, hrefs, -, hkept, -, -⟩ := sign_inv hs
-  obtain ⟨hk, hdig⟩ := mangle_spec E pkg {} m hm
+  obtain ⟨hk, hdig⟩ := mangle_spec fx E pkg {} m hm
   simp only [List.nil_append] at hk
-  exact ⟨by rw [hkept, hk], by rw [mkRefs_spec _ _ _ hrefs, hdig]⟩
+  exact ⟨by rw [hkept, hk], by rw [mkRefs_spec _ _ _ _ hrefs, hdig]⟩
 
-/-- **vsix_resign_replaces.** `s1` = a signing of `pkg`, `s2` = a signing (any configuration) of `s1`'s output.  Then
+/-- **vsix_resign_replaces** (before and after the repairs).  `s1` = a signing of `pkg`, `s2` = a signing (any configuration) of `s1`'s output.  Then
     * `s2` keeps exactly the parts the first signing kept = the `keepFile` parts of `pkg`;
     * `s2`'s output is those parts followed by the second signer's own parts (`newNames c2`): nothing the first signing wrote
       survives, and exactly one part carries the signature part's name;
     * the Manifest of `s2` lists the same (part, bytes) pairs as a signing of the original package with `c2` would. -/
-theorem vsix_resign_replaces (E : Env) (c1 c2 : Cfg) (pkg : Pkg) (s1 s2 : Vsix.Signed)
-    (h1 : Vsix.sign E c1 pkg = .ok s1) (hc1 : cfgOk c1 = true) (h2 : Vsix.sign E c2 s1.parts = .ok s2) (hc2 : cfgOk c2 = true) :
+theorem vsix_resign_replaces (fx : Bool) (E : Env) (c1 c2 : Cfg) (pkg : Pkg) (s1 s2 : Vsix.Signed)
+    (h1 : Vsix.sign fx E c1 pkg = .ok s1) (hc1 : cfgOk c1 = true) (h2 : Vsix.sign fx E c2 s1.parts = .ok s2) (hc2 : cfgOk c2 = true) :
     s2.kept = s1.kept ∧ s2.kept = pkg.filter (fun p => keepFile p.name) ∧
     s2.parts = s2.kept ++ newsOf E c2 s2.obj s2.ctOut ∧
     s2.parts.filter (fun p => p.name = sigName c2) = [⟨sigName c2, E.xsign c2.hash c2.detach s2.obj⟩] ∧
-    (∀ s0, Vsix.sign E c2 pkg = .ok s0 →
+    (∀ s0, Vsix.sign fx E c2 pkg = .ok s0 →
       s2.kept = s0.kept ∧ s2.refs.map (fun r => (r.name, r.stream)) = s0.refs.map (fun r => (r.name, r.stream))) := by
   have F1 := cfgFacts_of_cfgOk hc1
   have F2 := cfgFacts_of_cfgOk hc2
   obtain ⟨m1, hm1, -, -, hkept1, -, hparts1⟩ := sign_inv h1
-  obtain ⟨hk1, -⟩ := mangle_spec E pkg {} m1 hm1
+  obtain ⟨hk1, -⟩ := mangle_spec fx E pkg {} m1 hm1
   simp only [List.nil_append] at hk1
   obtain ⟨m2, hm2, -, -, hkept2, -, hparts2⟩ := sign_inv h2
   obtain ⟨hk2r, hrefs2⟩ := refs_of_kept h2
@@ -93,13 +93,13 @@ theorem vsix_resign_replaces (E : Env) (c1 c2 : Cfg) (pkg : Pkg) (s1 s2 : Vsix.S
     proved (needs the `Marshal`/`Parse` round trip of the content type tables through the sorted lists; every `resign` op
     executes it on the real code and on the model) -/
 def vsix_resign_total_full : Prop :=
-  ∀ (E : Env) (c1 c2 : Cfg) (pkg : Pkg) (s1 : Vsix.Signed), Vsix.sign E c1 pkg = .ok s1 → cfgOk c1 = true →
-    (∀ a b, E.parseCT (E.marshalCT a b) = some (a, b)) → ∃ s2, Vsix.sign E c2 s1.parts = .ok s2
+  ∀ (E : Env) (c1 c2 : Cfg) (pkg : Pkg) (s1 : Vsix.Signed), Vsix.sign true E c1 pkg = .ok s1 → cfgOk c1 = true →
+    (∀ a b, E.parseCT (E.marshalCT a b) = some (a, b)) → ∃ s2, Vsix.sign true E c2 s1.parts = .ok s2
 
 /-- the hypotheses are satisfiable: the demo package signed with embedded certificates, then again with detached ones:
     one signature part, `a.txt` still the only payload part, four references as before -/
-example : ∃ s2, Vsix.sign (demoE (demoCfg true) demoPkg) (demoCfg true) (demoSigned (demoCfg false) demoPkg).parts = .ok s2 ∧
-    s2.kept = (demoSigned (demoCfg false) demoPkg).kept ∧ s2.parts.length = 8 ∧ s2.refs.length = 4 := by
+example : ∃ s2, Vsix.sign true (demoE (demoCfg true) demoPkg) (demoCfg true) (demoSigned true (demoCfg false) demoPkg).parts = .ok s2 ∧
+    s2.kept = (demoSigned true (demoCfg false) demoPkg).kept ∧ s2.parts.length = 8 ∧ s2.refs.length = 4 := by
   refine ⟨_, rfl, by decide, by decide, by decide⟩
 
 end Relic.Props.C08
